@@ -57,7 +57,17 @@ def run(facts, res):
         n = t.callee.name
         ok = False
         why = ""
-        if n == "insert":
+        if n == "insert" and "VacantEntry" in (t.callee.path + (t.callee.self_ty or "")):
+            ok = True
+            why = "VacantEntry::insert (the slot is vacant by construction)"
+        elif n == "entry":
+            # the entry API: insert-if-absent as long as an occupied entry is never written
+            bad_ = [tt.callee.name for _, tt in b.calls() if tt.callee is not None and
+                    (("OccupiedEntry" in (tt.callee.path + (tt.callee.self_ty or "")) and tt.callee.name in ("insert", "remove", "remove_entry", "get_mut", "into_mut", "replace_entry", "replace_key")) or
+                     ("Entry" in (tt.callee.path + (tt.callee.self_ty or "")) and tt.callee.name in ("and_modify", "insert_entry")))]
+            ok = not bad_
+            why = "entry(): only a vacant entry is filled (or_insert* / VacantEntry::insert)"
+        elif n == "insert":
             key = arg_term(b, t, 1, 10)
             kv = {x[1] for x in walk(key) if x[0] in ("param", "var")}
             for l in lits_of(b, bi, facts):
